@@ -18,6 +18,7 @@ Definition dispatch (line : bytes) : bytes :=
     else if beqb cmd B"refs" then run_refs args
     else if beqb cmd B"enum" then run_enum args
     else if beqb cmd B"rules" then run_rules args
+    else if beqb cmd B"oasleaf" then run_oasleaf args
     else if beqb cmd B"plain" then run_plain args
     else if beqb cmd B"jlen" then run_jlen args
     else if beqb cmd B"stext" then run_stext args
